@@ -69,7 +69,7 @@ def _twin_module(module, names):
     return tdir, tname
 
 
-_CALL = re.compile(r"when calling (\w+)\((.*)\)\s*(\(which returns.*)?$")
+_CALL = re.compile(r"when calling (\w+)\((.*?)\)\s*(\(which returns.*)?$")
 
 
 def _crosshair(target, timeout, extra_path=None, per_path=None):
